@@ -27,6 +27,19 @@ def run(ctx):
         table = tables.rand_table(rng, exprs, n_units, p_fail=0.2, dyadic=(rng.random() < 0.6), allow_other=other_stream)
         null = Fraction(rng.randrange(-16, 17), 4)
         prov, _units, _ = make_prov(I, exprs, n_units)
+        if it % 6 == 1:
+            # start from the DEFAULT provenance object (one row per unit, is_simple) and reach the same formulas by editing it in place
+            P_ = I["provenance"]
+            exprs = exprs[:n_units] + [{"eq": [u, 1]} for u in range(len(exprs), n_units)]
+            raw = P_.Units(units=n_units, candidates=2)
+            prov = P_.Provenance(units=raw)
+            from props.common import UView
+            _units = UView(raw, list(range(n_units)))
+            for r_, e_ in enumerate(exprs):
+                if e_ != {"eq": [r_, 1]}:
+                    prov[r_] = gen.build_expr(P_, _units, e_)
+            table = tables.rand_table(rng, exprs, n_units, p_fail=0.2, dyadic=True, allow_other=False)
+            other_stream = False
         n_rows = len(exprs)
         X = np.arange(n_rows, dtype=float).reshape(-1, 1)
         util = tables.make_table_utility(I, table, null, mean=0)
